@@ -22,20 +22,27 @@ The fragment: literals, operators, `&&` `||`, `if`/`else` and `match` expression
 and assignment, blocks, `while` / `loop` with plain and labelled `break` / `continue` in
 statement position, statement-level `if`.
 
-**First-order functions** (`P2sh.Core.Fn`, a layer over the core fragment): top-level function
+**Functions and closures** (`P2sh.Core.Fn`, a layer over the core fragment): function
 definitions (`fn f(…) {…}`, `let f = fn(…) {…};`, `f = fn(…) {…};`), parameters and local `let`s
 (stack slots), `return e;` / `return;` / the implicit return of a final expression statement,
 calls, recursion through the function's own name (`CurrClosure`) and through globals, the arity
-check — no captured variables.  `compile_sound_functions`: every terminating run of every such
-program is reproduced by the machine with frames on the compiled program (main code, constant
-pool with the function constants, one code per function constant), from the empty stack and no
-frame back to the empty stack and no frame.  Tied byte for byte (main code, every function's
-code, line tables, `num_locals`, `num_params`) and run for run with the real compiler and VM by
-the `core` op.
+check — and CLOSURES: function literals and `fn` statements written inside function bodies and
+blocks, at any nesting depth, capturing parameters, locals, captured values (capture chains
+through intermediate functions) and the own name of the functions enclosing them; closures as
+first-class values (returned, stored in globals and locals, passed as arguments, called after the
+function that created them returned); reads of (`GetFree`) and assignments to (`SetFree`) the
+closure's own copy of a captured variable, the copy being shared by every activation of one
+closure object.  `compile_sound_functions`: every terminating run of every such program is
+reproduced by the machine with frames on the compiled program (main code, constant pool with the
+function constants, one code per function constant), from the empty stack and no frame back to
+the empty stack and no frame, with the same globals and the same closure objects.  Tied byte for
+byte (main code, every function's code — nested ones included —, line tables, `num_locals`,
+`num_params`, the operands of `Closure` and the loads before it) and run for run with the real
+compiler and VM by the `core` op.  What a closure captures and keeps: `Props/C04Closure.lean`.
 
-Open (stated in DESIGN §6): the same for closures with captured variables, arrays, maps, index
-expressions — covered by the three-way differential run (real pipeline / Lean VM model on the
-real bytecode / Lean reference semantics).
+Open (stated in DESIGN §6): the same for arrays, maps, index expressions — covered by the
+three-way differential run (real pipeline / Lean VM model on the real bytecode / Lean reference
+semantics).
 -/
 namespace P2sh.Props.C02
 open P2sh P2sh.Core
@@ -90,29 +97,29 @@ example : evalP 40 [.null, .null]
   rfl
 
 
-/-! ## first-order functions -/
+/-! ## functions and closures -/
 
 open P2sh.Core.Fn in
-/-- **functions, recursion**: every terminating run (any fuel) of every program of `Core.Fn` —
+/-- **functions, recursion, closures**: every terminating run (any fuel) of every program of `Core.Fn` —
 top-level statements and function definitions; bodies with parameters, locals, loops, `return`
 from any nesting, implicit returns; calls, recursion, mutual recursion through globals — is
 reproduced by the compiled program: main code `compileT`, pool `constsT` (every function
 constant after the constants of its body), the code of every function constant `codeT`
 (positions from 0).  From the empty stack and no frame to the empty stack and no frame, with
 the globals of the reference evaluation. -/
-theorem compile_sound_functions (fuel : Nat) (T : List FTop) (g g' : List Val)
-    (he : evalT (phiT T) fuel g T = some g') :
+theorem compile_sound_functions (fuel : Nat) (T : List FTop) (g g' : List Val) (h h' : List (List Val))
+    (he : evalT (phiT T) fuel g h T = some (g', h')) :
     FSteps (constsT T) (codeT T)
-      ⟨⟨compileT 0 0 T, ⟨[], [], 0, 0, 0⟩, 0, 0⟩, [], g, []⟩
-      ⟨⟨compileT 0 0 T, ⟨[], [], 0, 0, 0⟩, bytes (compileT 0 0 T), 0⟩, [], g', []⟩ :=
-  program_correct_fn fuel T g g' he
+      ⟨⟨compileT 0 0 T, ⟨[], [], 0, 0, 0⟩, 0, 0, 0⟩, [], g, h, []⟩
+      ⟨⟨compileT 0 0 T, ⟨[], [], 0, 0, 0⟩, 0, bytes (compileT 0 0 T), 0⟩, [], g', h', []⟩ :=
+  program_correct_fn fuel T g g' h h' he
 
 open P2sh.Core.Fn in
 /-- an expression with calls inside — anywhere in the code of a running function or of the top
 level, with any operands underneath — pushes exactly its reference value; the local slots of
 the running activation and the globals end as the reference evaluation says -/
 theorem expr_sound_functions {Φ : FnDef → Option FDecl} {K : List Val} {F : FnDef → Option (List Instr)} (hL : Linked Φ K F)
-    (fuel : Nat) (e : FExpr) (X : Ctxt) (pos k : Nat) (ops : List Val) (cx : Option FnDef) (σ σ' : Sto) (v : Val)
+    (fuel : Nat) (e : FExpr) (X : Ctxt) (pos k : Nat) (ops : List Val) (cx : Option (FnDef × Nat)) (σ σ' : Sto) (v : Val)
     (h : codeAt X.code pos (compileE pos k e)) (hp : poolAt K k (constsE e)) (hx : Agree cx X)
     (he : evalE Φ fuel cx σ e = some (v, σ')) :
     FSteps K F (X.st pos ops σ) (X.st (pos + bytes (compileE pos k e)) (v :: ops) σ') :=
@@ -139,7 +146,7 @@ def factProg (n : Int64) : List FTop :=
   [.fnDef 1 0 [] [] factD, .stmt (.letG 2 1 (.call 2 (.gget 2 0) (argsOf [.lit 2 (.int n)])))]
 
 /-- non-vacuity: `fact(5)` is `120` in the reference evaluation … -/
-example : evalT (phiT (factProg 5)) 40 [.null, .null] (factProg 5) = some [.clos (mkFd [] [] factD) [] 0, .int 120] := by rfl
+example : evalT (phiT (factProg 5)) 40 [.null, .null] [[]] (factProg 5) = some ([.clos (mkFd [] [] factD) [] 1, .int 120], [[], []]) := by rfl
 
 /-- … the body's code: the last `Pop` has become `ReturnValue` (the implicit return) … -/
 example : compileFn 0 factD =
@@ -147,9 +154,9 @@ example : compileFn 0 factD =
      .getLocal 0, .currClosure, .getLocal 0, .const 2, .op .sub, .call 1, .op .mul, .retv] := by rfl
 
 /-- … and the machine, run on the compiled program, ends with the same globals, the empty stack, no frame -/
-example : frun (constsT (factProg 3)) (codeT (factProg 3)) 200 ⟨⟨compileT 0 0 (factProg 3), ⟨[], [], 0, 0, 0⟩, 0, 0⟩, [], [.null, .null], []⟩
-    = .done ⟨⟨compileT 0 0 (factProg 3), ⟨[], [], 0, 0, 0⟩, bytes (compileT 0 0 (factProg 3)), 0⟩, [],
-             [.clos (mkFd [] [] factD) [] 0, .int 6], []⟩ := by rfl
+example : frun (constsT (factProg 3)) (codeT (factProg 3)) 200 ⟨⟨compileT 0 0 (factProg 3), ⟨[], [], 0, 0, 0⟩, 0, 0, 0⟩, [], [.null, .null], [[]], []⟩
+    = .done ⟨⟨compileT 0 0 (factProg 3), ⟨[], [], 0, 0, 0⟩, 0, bytes (compileT 0 0 (factProg 3)), 0⟩, [],
+             [.clos (mkFd [] [] factD) [] 1, .int 6], [[], []], []⟩ := by rfl
 
 /-- `let odd = null; fn even(n) { if n == 0 { true } else { odd(n - 1) } }
 odd = fn(n) { if n == 0 { false } else { even(n - 1) } };` — mutual recursion through globals -/
@@ -161,10 +168,10 @@ def evenOddProg (n : Int64) : List FTop :=
   [.stmt (.letG 1 0 (.null 1)), .fnDef 2 1 [0] [] evenD, .fnSet 3 3 0 [1] [] oddD,
    .stmt (.letG 4 2 (.call 4 (.gget 4 1) (argsOf [.lit 4 (.int n)])))]
 
-example : evalT (phiT (evenOddProg 4)) 60 [.null, .null, .null] (evenOddProg 4)
-    = some [.clos (mkFd [1] [] oddD) [] 0, .clos (mkFd [0] [] evenD) [] 0, .bool true] := by rfl
-example : evalT (phiT (evenOddProg 3)) 60 [.null, .null, .null] (evenOddProg 3)
-    = some [.clos (mkFd [1] [] oddD) [] 0, .clos (mkFd [0] [] evenD) [] 0, .bool false] := by rfl
+example : evalT (phiT (evenOddProg 4)) 60 [.null, .null, .null] [[]] (evenOddProg 4)
+    = some ([.clos (mkFd [1] [] oddD) [] 2, .clos (mkFd [0] [] evenD) [] 1, .bool true], [[], [], []]) := by rfl
+example : evalT (phiT (evenOddProg 3)) 60 [.null, .null, .null] [[]] (evenOddProg 3)
+    = some ([.clos (mkFd [1] [] oddD) [] 2, .clos (mkFd [0] [] evenD) [] 1, .bool false], [[], [], []]) := by rfl
 
 /-- `fn root(n) { let i = 0; while true { loop { if i * i > n { return i; } i = i + 1; } } }` — an
 early `return` from inside two nested loops; parameter = slot 0, the local `i` = slot 1 -/
@@ -178,20 +185,20 @@ def rootProg (n : Int64) : List FTop :=
   [.fnDef 1 0 [] [] rootD, .stmt (.letG 8 1 (.bin 8 .add (.lit 8 (.int 100)) (.call 8 (.gget 8 0) (argsOf [.lit 8 (.int n)]))))]
 
 /-- the call inside `100 + root(10)` returns from the two loops with the pending operand `100` intact -/
-example : evalT (phiT (rootProg 10)) 60 [.null, .null] (rootProg 10) = some [.clos (mkFd [] [] rootD) [] 0, .int 104] := by rfl
+example : evalT (phiT (rootProg 10)) 60 [.null, .null] [[]] (rootProg 10) = some ([.clos (mkFd [] [] rootD) [] 1, .int 104], [[], []]) := by rfl
 
-example : frun (constsT (rootProg 3)) (codeT (rootProg 3)) 300 ⟨⟨compileT 0 0 (rootProg 3), ⟨[], [], 0, 0, 0⟩, 0, 0⟩, [], [.null, .null], []⟩
-    = .done ⟨⟨compileT 0 0 (rootProg 3), ⟨[], [], 0, 0, 0⟩, bytes (compileT 0 0 (rootProg 3)), 0⟩, [],
-             [.clos (mkFd [] [] rootD) [] 0, .int 102], []⟩ := by rfl
+example : frun (constsT (rootProg 3)) (codeT (rootProg 3)) 300 ⟨⟨compileT 0 0 (rootProg 3), ⟨[], [], 0, 0, 0⟩, 0, 0, 0⟩, [], [.null, .null], [[]], []⟩
+    = .done ⟨⟨compileT 0 0 (rootProg 3), ⟨[], [], 0, 0, 0⟩, 0, bytes (compileT 0 0 (rootProg 3)), 0⟩, [],
+             [.clos (mkFd [] [] rootD) [] 1, .int 102], [[], []], []⟩ := by rfl
 
 /-- `fn fact(n) {…}  let r = fact(5, 6);` — the wrong number of arguments is a runtime error: the
 reference evaluation fails, and so does the machine (at the `Call`, with both arguments pushed) -/
 def arityProg : List FTop :=
   [.fnDef 1 0 [] [] factD, .stmt (.letG 2 1 (.call 2 (.gget 2 0) (argsOf [.lit 2 (.int 5), .lit 2 (.int 6)])))]
 
-example : evalT (phiT arityProg) 40 [.null, .null] arityProg = none := by rfl
+example : evalT (phiT arityProg) 40 [.null, .null] [[]] arityProg = none := by rfl
 
-example : (match frun (constsT arityProg) (codeT arityProg) 200 ⟨⟨compileT 0 0 arityProg, ⟨[], [], 0, 0, 0⟩, 0, 0⟩, [], [.null, .null], []⟩ with
+example : (match frun (constsT arityProg) (codeT arityProg) 200 ⟨⟨compileT 0 0 arityProg, ⟨[], [], 0, 0, 0⟩, 0, 0, 0⟩, [], [.null, .null], [[]], []⟩ with
     | .stuck st => st.act.pc == 16 && st.stk.length == 3 && st.callers.isEmpty
     | _ => false) = true := by rfl
 
